@@ -105,6 +105,17 @@ def parse_rules(stack):
     return out
 
 
+def bounded_stack_cases(seed, n):
+    """filter stacks (one verdict per directory, and several verdicts on one directory) over path walks with a maximum depth 1..3"""
+    out = []
+    rng = random.Random(seed)
+    pool = [c for c in walklib.gen_cases(seed, n, stack=filter_stack, bounds="none", mode="p", link="f") if c.labels["base"] in ("root", "subdir")]
+    pool += [c for c in walklib.gen_cases(seed + 1, n // 2, stack=same_dir_stack, bounds="none", mode="p", link="f") if c.labels["base"] in ("root", "subdir")]
+    for c in pool:
+        out.append(c.clone(mx=str(rng.choice([1, 1, 2, 2, 3]))))
+    return out
+
+
 def expected(c):
     """what every filter layer must observe, and what the consumer must receive, from the recorded tree alone"""
     rules = [r for _k, r in parse_rules(c.stack)]
@@ -125,7 +136,13 @@ def expected(c):
                 continue
             entries.append((p if sub == "" or not base.endswith("/") else p, k, d))
     link_below = None
+    # a maximum depth is applied by the traversal itself: deeper entries are never read, so no layer sees them
+    mx = int(c.mx) if getattr(c, "mx", "-") not in ("-", None, "") and str(c.mx).isdigit() else None
+    def rel_depth(p):
+        return 0 if p == base else len([x for x in p[len(base.rstrip("/")):].strip("/").split("/") if x])
     for p, k, d in entries:
+        if mx is not None and rel_depth(p) > mx:
+            continue
         if skip_below is not None and p.startswith(skip_below + "/"):
             continue
         if link_below is not None and p.startswith(link_below + "/"):
@@ -157,6 +174,9 @@ def run(rep, tier, seed, replay):
     direct = [c for c in direct if c.labels["base"] in ("root", "subdir")]
     direct += followed_link_cases(seed + 6, n)
     direct += [c for c in walklib.gen_cases(seed + 8, n // 2, stack=same_dir_stack, bounds="none", mode="p", link="f") if c.labels["base"] in ("root", "subdir")]
+    # the same stacks under a MAXIMUM depth: a tree verdict on a directory exactly at the bound (nothing beneath it is read
+    # anyway) must not cost its later siblings
+    direct += bounded_stack_cases(seed + 12, n)
     general = walklib.gen_cases(seed + 1, n)
     if replay is not None:
         c = walklib.case_from(replay["input"])
